@@ -8,7 +8,7 @@ Pipeline of every check (DESIGN.md 3.5):
                    only a rejection there, of an observation of REAL code, reproduced by a second run, is a VIOLATION
 """
 import copy
-import json
+import itertools, json
 import os
 import random
 import time
@@ -26,13 +26,14 @@ OWN = {
             "interrupt-info-state-mismatch", "checkpoint-not-written-exactly-once-under-the-id", "checkpoint-written-without-interrupt",
             "interrupt-while-node-running"},
     "C13": {"error-names-wrong-node-path", "cause-not-unwrappable", "unwrapped-cause-of-another-node", "panic-error-names-wrong-node-path",
-            "max-steps-sentinel-not-matchable", "context-error-not-matchable", "panic-escaped-the-run", "run-hangs"},
+            "max-steps-sentinel-not-matchable", "context-error-not-matchable", "panic-escaped-the-run", "run-hangs",
+            "node-started-after-cancellation"},
     "C11": {"body-before-pre-handler", "state-trail-mismatch", "pre-handler-twice", "pre-handler-of-node-not-triggered",
             "pre-handler-without-state", "rerun-input-not-rebuilt-from-state", "state-update-lost-or-state-not-fresh",
             "post-handler-not-after-its-node", "successor-started-before-post-handler", "state-access-without-state",
             "state-access-in-unknown-frame", "state-access-blocked-after-callback-panic"},
 }
-SHARED = {"interrupt-while-node-running": {"C05", "C06"}, "interrupt-info-state-mismatch": {"C05", "C06", "C11"},
+SHARED = {"interrupt-while-node-running": {"C05", "C06", "C13"}, "interrupt-info-state-mismatch": {"C05", "C06", "C11"},
           "state-trail-mismatch": {"C05", "C11"}, "rerun-input-not-rebuilt-from-state": {"C05", "C11"},
           "pre-handler-of-node-not-triggered": {"C05", "C11"}, "pre-handler-twice": {"C05", "C11"},
           "state-update-lost-or-state-not-fresh": {"C05", "C11"},
@@ -417,7 +418,24 @@ def c13(tier, repo=None):
         return _has(obs, "error")
 
     def extra(rnd):
-        return []
+        """one superstep of 3-4 parallel nodes in which two ask for interrupt-and-rerun and finish BEFORE a third one fails: the
+        failure must be what the run reports (every started node is awaited), in every completion order of the three"""
+        out = []
+        names = ["a", "b", "c", "d"]
+        for width in (3, 4):
+            for mode in ("pregel", "dag"):
+                nodes = names[:width]
+                edges = [["start", n, "cd"] for n in nodes] + [[n, "end", "cd"] for n in nodes]
+                for kind in ("err", "panic"):
+                    for order in itertools.permutations(range(3)):
+                        for rep in range(2 if tier == "quick" else 8):
+                            failing = nodes[2]
+                            delay = {nodes[0]: order[0], nodes[1]: order[1], failing: order[2]}
+                            for n in nodes[3:]:
+                                delay[n] = rnd.randrange(4)
+                            out.append({"mode": mode, "nodes": list(nodes), "edges": copy.deepcopy(edges), "branches": [], "max": 0, "before": [], "after": [],
+                                        "rerun": nodes[:2], "state": True, "fail": [{"n": failing, "kind": kind}], "delay": delay, "fam": "par-rerun-fail"})
+        return out
     if tier == "quick":
         fams = [("fp3", consts("pregel", 3, 3, 1, 1, fail=True, maxchoice=(3,)), {}),
                 ("fd3", consts("dag", 3, 4, 1, 0, fail=True), {}),
@@ -430,7 +448,7 @@ def c13(tier, repo=None):
                 ("fw3", consts("wf", 3, 4, 1, 0, fail=True), {"timeout": 1800})]
         limit = 200000
     return run_engine_check("C13", tier, model_cfgs=["MC_EinoRun_fail2.cfg"], families=fams, decorate_kw={"fail_variants": True, "rmax_frac": 0.1},
-                            nontrivial=nontrivial, nest_frac=0.15, limit=limit, repo=repo, extra_part=c13_tools_part,
+                            nontrivial=nontrivial, nest_frac=0.15, limit=limit, repo=repo, extra_part=c13_tools_part, extra_scenarios=extra,
                             assumptions=["a failing side branch of an eager (workflow) run that does not feed END may go unreported when END is assembled first (not judged)"])
 
 
